@@ -545,6 +545,8 @@ theorem cinv_step {s : State} (h : CInv s) (op : Op) : CInv (step s op).1 := by
     split
     · rename_i hpc
       exact cinv_pc h c .returned (by rw [hpc]; rfl) (by rw [hpc]; simp) (by simp) (by rw [hpc]; simp)
+    · rename_i hpc
+      exact cinv_pc h c .returned (by rw [hpc]; rfl) (by rw [hpc]; simp) (by simp) (by rw [hpc]; simp)
     · exact h
   | bctx c => simp only [step]; split <;> exact h
   | raw op => exact cinv_raw_op h op
@@ -693,6 +695,7 @@ theorem mu_le_internal (s : State) (op : Op) (hop : internal op = true) : mu (st
     · exact Nat.le_refl _
   | ret c =>
     simp only [step]; split
+    · rename_i hpc; exact mu_pc_le s _ c _ rfl rfl (by rw [hpc]; simp [weight])
     · rename_i hpc; exact mu_pc_le s _ c _ rfl rfl (by rw [hpc]; simp [weight])
     · exact Nat.le_refl _
 
